@@ -242,7 +242,10 @@ class MultiWorld(schedeng.World):
             name = dep.name
             plain = _PosixPath(world.dir) / name
             existed = plain.is_file()
-            world.in_release = s
+            # the `racedel` interleaving is injected only when the file is in the cache before the recount: then
+            # "reclaim, then a release that finds nothing" is an exact linearisation (otherwise the recount also
+            # starts a watcher for the file)
+            world.in_release = s if name in T.cache else None
             try:
                 real_release(dep)
             except BaseException:
